@@ -853,6 +853,13 @@ def replay_tape(wd, rp):
         tape = write_custom_tape(wd, tag, prog, org, fin, blocks, g)
         runs, dropped = run_matrix(tape, fin, cfgs, loads, wd, tag)
         return {'key': rp['key'], 'start': fin, 'expect': [d for _, d in loads], 'runs': runs, 'dropped': dropped, 'gen': g}
+    if rp['key'].startswith('slow/'):
+        g, tape, tag, fin, loads = make_slow_case(rnd, rg['idx'], rg['tier'], wd)
+        if g != rp['gen']:
+            raise MachineryError('the replay file was written by a different version of the C13 slow-consumer generator: it now makes %s, '
+                                 'recorded %s' % (g, rp['gen']))
+        runs, dropped = run_matrix(tape, fin, cfgs, loads, wd, tag, bool(g['m128']))
+        return {'key': rp['key'], 'start': fin, 'expect': [d for _, d in loads], 'runs': runs, 'dropped': dropped, 'gen': g}
     if rp['key'].startswith('irq/'):
         g, tape, tag, fin, cnt, loads, fes, pos = make_irq_case(rnd, export_accelerators(), rg['idx'], wd)
         if g != rp['gen']:
@@ -1216,6 +1223,178 @@ def irq_worker(args):
         out.append({'key': 'irq/im%d/%s/%s%s' % (g['im'], g['acc'], '+'.join(g['kinds']), '/128' if g['m128'] else ''), 'start': fin,
                     'expect': [d for _, d in loads], 'runs': runs, 'dropped': dropped, 'gen': g, 'tape': os.path.basename(tape), 'names': names,
                     'wall': round(time.time() - t0, 2), 'regen': dict(st, idx=idx), 'irq': dict(ints=ints, early=early, window=window, pos={str(k): v for k, v in pos.items()})})
+        for f in os.listdir(sub):
+            if f.startswith(tag + '.'):
+                os.remove(os.path.join(sub, f))
+    return out
+
+
+# ------------------------------------------------------------------------------------------------ part 3c
+# "Slow consumers": a program that runs with interrupts enabled (IM 1, the ROM routine counts FRAMES), waits a long time
+# (HALT x N or a busy loop) before it asks the ROM loader for the next headerless block, and goes on running for some frames
+# after every load.  When the wait is longer than the next block, the fast load moves the clock BACKWARDS to the block's last
+# edge; the tracers must work out the time of the next frame interrupt from the new clock (separately in loadtracer.py and
+# csimulator.c), otherwise interrupts are lost until the clock has caught up (FRAMES, R, stack).
+SLOW_WAITS = (('halt', 1), ('halt', 1), ('busy', 30), ('halt', 30), ('busy', 50))
+SLOW_FORCE = (('busy', 100), ('halt', 100), ('busy', 200), ('halt', 50), ('halt', 200), ('busy', 400))
+
+
+def _wait_code(kind, n):
+    if kind == 'halt':
+        return [0x01, n % 256, n // 256, 0x76, 0x0B, 0x78, 0xB1, 0x20, 0xFA]          # LD BC,n: HALT: DEC BC: LD A,B: OR C: JR NZ,-6
+    # LD HL,n: LD BC,2688: DEC BC: LD A,B: OR C: JR NZ,-5: DEC HL: LD A,H: OR L: JR NZ,-13   (one outer turn = one frame)
+    return [0x21, n % 256, n // 256, 0x01, 0x80, 0x0A, 0x0B, 0x78, 0xB1, 0x20, 0xFB, 0x2B, 0x7C, 0xB5, 0x20, 0xF3]
+
+
+def gen_slow(rnd, idx, tier):
+    """Waits in frames.  The clock goes back at a fast load when wait + work after the previous load > gap + duration of the block:
+    one stage of every tape is made long enough for that (short leaders, gaps and blocks keep the Python runs affordable)."""
+    q = tier == 'quick'
+    n = (2, 2, 3, 3)[idx % 4]
+    real = idx % 4 == 1                    # long leaders: the ROM routine can also load these blocks for real (fast-load=0)
+    if real:
+        waits = [rnd.choice((('halt', 1), ('busy', 30))) for _ in range(n)]
+        k = rnd.randrange(1, n)
+        waits[k] = ('busy', 120)
+        lens = [rnd.choice((2, 17)) for _ in range(n)]
+        gaps = [300] * n
+        pilots = [rnd.choice((2400, 2600)) for _ in range(n)]
+    else:
+        waits = [rnd.choice(SLOW_WAITS[:5]) for _ in range(n)]
+        force = SLOW_FORCE[(idx // 4) % (4 if q else 6)]
+        k = rnd.randrange(1, n)
+        waits[k] = force
+        lens = [rnd.choice((2, 17, 60) if q or force[1] < 200 else (2, 17, 60, 300)) for _ in range(n)]
+        gaps = [rnd.choice((300, 500) if force[1] < 200 else (300, 1000, 2000)) for _ in range(n)]
+        pilots = [rnd.choice((600, 1000) if force[1] < 200 else (1000, 3223)) for _ in range(n)]
+    if not real and force[1] < 100:
+        gaps[k - 1], pilots[k], lens[k] = 300, 600, min(lens[k], 17)
+    return dict(waits=[list(w) for w in waits], after=[rnd.choice((3, 5, 8)) for _ in range(n)], halts=[rnd.choice((0, 2)) for _ in range(n)],
+                lens=lens, flags=[rnd.choice((0xFF, 0x55, 0x80, 0x07)) for _ in range(n)], pilots=pilots, real=int(real), gaps=gaps,
+                tail=int(idx % 5 != 4 or k == n - 1), org=rnd.choice((0x8000, 0x9C40, 0xC000)), stack=rnd.choice((0, 0x7F00)), m128=int(idx % 8 == 6),
+                pyreal=int(idx % 8 == 1), cmio=int(idx % 4 == 2), pycmio=int(idx % 8 == 2))
+
+
+def build_slow(g, rnd):
+    def emit(fin, dests):
+        code = [0xED, 0x56, 0xFB]                                   # IM 1: EI
+        for k in range(len(g['waits'])):
+            code += _wait_code(*g['waits'][k])
+            d, ln, fl = dests[k], g['lens'][k], g['flags'][k]
+            code += [0xDD, 0x21, d % 256, d // 256, 0x11, ln % 256, ln // 256, 0x3E, fl, 0x37, 0xCD, 0x56, 0x05, 0xD2, fin % 256, fin // 256]
+            code += _wait_code('busy', g['after'][k])
+            if g['halts'][k]:
+                code += _wait_code('halt', g['halts'][k])
+        return code + [0x00, 0xC3, fin % 256, fin // 256]
+    size = len(emit(0, [0] * len(g['waits'])))
+    fin = g['org'] + size - 4
+    dests = []
+    d = fin + 8
+    for ln in g['lens']:
+        dests.append(d)
+        d += ln + 3
+    prog = bytes(emit(fin, dests))
+    datas = [[rnd.randrange(256) for _ in range(ln)] for ln in g['lens']]
+    return prog, fin, [(a, b) for a, b in zip(dests, datas)]
+
+
+def write_slow_tape(wd, tag, prog, g, loads):
+    from skoolkit import bin2tap
+    src = os.path.join(wd, tag + '.bin')
+    tap = os.path.join(wd, tag + '.tap')
+    with open(src, 'wb') as f:
+        f.write(prog)
+    args = ['-o', str(g['org']), '-s', str(g['org'])]
+    if g['stack']:
+        args += ['-p', str(g['stack'])]
+    _, e, rc = pipedrv.run_tool(bin2tap.main, args + [src, tap])
+    if rc or not os.path.isfile(tap):
+        raise MachineryError('bin2tap failed for a slow-consumer program: %s' % e[-300:])
+    raw = open(tap, 'rb').read()
+    out = bytearray(tapedrv.tzx_header())
+    i = 0
+    while i + 2 <= len(raw):
+        ln = raw[i] + 256 * raw[i + 1]
+        out += tapedrv.tzx10(raw[i + 2:i + 2 + ln], 1000)
+        i += 2 + ln
+    n = len(loads)
+    for k, (_, data) in enumerate(loads):
+        flag = g['flags'][k]
+        payload = bytes([flag] + data + [parity(flag, data)])
+        pause = g['gaps'][k] if k < n - 1 or g['tail'] else 0
+        out += tapedrv.tzx11(payload, pilot_len=g['pilots'][k], pause_ms=pause)
+    if g['tail']:
+        out += tapedrv.tzx12(2168, 300)            # a trailing tone: the last fast load is not at the end of the tape either
+    path = os.path.join(wd, tag + '.tzx')
+    with open(path, 'wb') as f:
+        f.write(out)
+    return path
+
+
+def slow_matrix(rnd, g):
+    cfgs = [{}, {'python': 1}, {'accelerator': 'none', 'accelerate-dec-a': rnd.randrange(3)}]
+    if max(n for _, n in g['waits']) <= 1:
+        cfgs += [{'pause': 0}]
+    if g['real']:
+        cfgs += [{'fast-load': 0}, {'fast-load': 0, 'accelerator': 'none'}] + ([{'fast-load': 0, 'python': 1}] if g['pyreal'] else [])
+    if g['cmio']:
+        cfgs += [{'cmio': 1}, {'cmio': 1, 'accelerator': 'none'}] + ([{'cmio': 1, 'python': 1}] if g['pycmio'] else [])
+    return cfgs
+
+
+@contextlib.contextmanager
+def fast_load_spy(log):
+    """Records (clock before, block's last edge) for every ROM fast load that is not at the end of the tape: that is where both
+    load loops set the clock to the edge (the method is the tracer's own, called from the Python and from the C loop)."""
+    from skoolkit import loadtracer
+    orig = loadtracer.LoadTracer.fast_load
+
+    def spy(self, simulator):
+        before = int(simulator.registers[25])
+        rv = orig(self, simulator)
+        if rv and self.state[3] != self.max_index:
+            log.append((before, int(self.edges[self.state[3]])))
+        return rv
+    loadtracer.LoadTracer.fast_load = spy
+    try:
+        yield
+    finally:
+        loadtracer.LoadTracer.fast_load = orig
+
+
+def make_slow_case(rnd, idx, tier, sub):
+    g = gen_slow(rnd, idx, tier)
+    prog, fin, loads = build_slow(g, rnd)
+    tag = 's%d' % idx
+    return g, write_slow_tape(sub, tag, prog, g, loads), tag, fin, loads
+
+
+def slow_worker(args):
+    seed, indices, tier, wd = args
+    _skool()
+    rnd = random.Random(seed)
+    sub = os.path.join(wd, 'slow%d' % seed)
+    os.makedirs(sub, exist_ok=True)
+    out = []
+    for idx in indices:
+        st = replaylib.rnd_state(rnd)
+        g, tape, tag, fin, loads = make_slow_case(rnd, idx, tier, sub)
+        cfgs = slow_matrix(rnd, g)
+        t0 = time.time()
+        log = []
+        with fast_load_spy(log):
+            runs, dropped = run_matrix(tape, fin, cfgs, loads + [(23672, [0, 0, 0])], sub, tag, bool(g['m128']))
+        frames = []
+        for u in runs:
+            v = u['data'].pop() if u['data'] else []
+            frames.append(sum(x << (8 * i) for i, x in enumerate(v)) if v and min(v) >= 0 else -1)
+        fd = 70908 if g['m128'] else 69888
+        back = [(b - a) // fd for b, a in log if a < b]
+        out.append({'key': 'slow/%s%s%s' % ('+'.join('%s%d' % (k, n) for k, n in g['waits']), '/real' if g['real'] else '', '/128' if g['m128'] else ''),
+                    'start': fin, 'expect': [d for _, d in loads], 'runs': runs, 'dropped': dropped, 'gen': g, 'tape': os.path.basename(tape),
+                    'names': 'rom', 'wall': round(time.time() - t0, 2), 'regen': dict(st, idx=idx, tier=tier),
+                    'slow': dict(frames=frames, fast_loads=len(log), clock_back=len(back), clock_back_frames=sorted(set(back))[-6:],
+                                 clock_back_over_a_frame=sum(1 for x in back if x >= 1))})
         for f in os.listdir(sub):
             if f.startswith(tag + '.'):
                 os.remove(os.path.join(sub, f))
